@@ -168,7 +168,14 @@ func run(c *rig.Ctx) {
 	np := c.N(200, 4000)
 	c.Part("lcdon", np, func(i int64, r *rig.Rng) {
 		p := prog.Generate(r, prog.Options{OAMFocus: true, AllOpcodes: i%2 == 0, Hardware: i%3 == 0, Interrupts: i%4 == 0, CartType: -1})
-		m := rig.MustNew(p.ROM, rig.Opts{})
+		popts := rig.Opts{}
+		if i%5 == 3 {
+			// with the CPU trace option on (a trace must not touch the bus)
+			popts.DebugCPU = true
+			defer rig.QuietStdout()()
+			c.Count("lcdon_programs_with_cpu_trace", 1)
+		}
+		m := rig.MustNew(p.ROM, popts)
 		// the STAT interrupt sources selected must play no part: any combination is set up
 		// front in two programs out of three (IE stays as the program leaves it)
 		if i%3 != 0 {
